@@ -36,30 +36,21 @@ ASSUME = [
     "termination of Pollard's rho with a proper factor is not proved; the model carries fuel and the correspondence "
     "requires the model never to run out of it on the explored inputs",
     "std::uintmax_t / std::size_t are 64-bit (LP64)",
-    "is_perfect_square is modelled with its wrapping `curr * curr`: it answers true for some non-squares (2^34+4, ...). The odd "
-    "64-bit false positives found by an exploration outside this check (all iterates c in [2^32, 2^36) by brute force; all k-th "
-    "iterates in the structured regime k <= 24 by modular square roots) are replayed on every run (class "
-    "is_perfect_square_false_positives); one of them, 10785637507345693793, is PRIME: is_prime rejects it (PENDING_FINDINGS; "
-    "proved in Lean as C12_isPrime_counterexample). The exploration is not exhaustive: other such primes may exist",
+    "finding F19 (is_perfect_square's `curr * curr` wrapped; is_prime rejected the prime 10785637507345693793) is fixed in "
+    "/repo; the 18 odd former false positives found by an exploration outside this check are replayed on every run as "
+    "regression inputs (class is_perfect_square_false_positives)",
 ]
 
 # Genuine defects of /repo awaiting a decision by the coordinator (narrow structural match).
-# Odd 64-bit numbers n that are NOT perfect squares but for which is_perfect_square(n) returns true, because
-# `curr * curr` wraps around 2^64 for a Newton iterate curr >= 2^32 with curr^2 = n (mod 2^64).  strong_lucas
-# then answers COMPOSITE whatever n is.  Found by solving (c - 2^k)^2 = rho + 4^k - A_k (mod 2^64) for the k-th
-# iterate c (exploration outside this check); the first entry is PRIME (proved in Lean:
-# Au.C12_isPrime_counterexample), so is_prime is wrong on it and mag<n>() does not compile.
+# Regression inputs of finding F19 (fixed in /repo): odd 64-bit non-squares for which the former `curr * curr == n`
+# test of is_perfect_square wrapped to a false "true" (a Newton iterate curr >= 2^32 with curr^2 = n mod 2^64);
+# strong_lucas then answered COMPOSITE whatever n was.  The first entry is PRIME (Au.C12_isPrime_regression_F19):
+# is_prime rejected it and mag<n>() did not compile.  Every run requires all of them to be classified correctly.
 SQUARE_FALSE_POSITIVES = [10785637507345693793, 10685528935143053617, 15405458870843798969, 3705102001104354505,
                           12673371479969681361, 9425997995154109105, 11837406317022473153, 10479697266598077369,
                           6889858086595868265, 18364858902909781353, 17480118059326553593, 4454208207196073833,
                           14852596459453078769, 14672545851565818025, 10969573557020164425, 3074454413583988969,
                           4419674699631115401, 10501764065474018401]
-
-# Genuine defects of /repo awaiting a decision by the coordinator (narrow structural match on the replay record):
-# is_prime(10785637507345693793) == false although the number is prime (and strong_lucas says COMPOSITE for it).
-PENDING_FINDINGS = [
-    {"kind": "P", "n": 10785637507345693793, "observable": ["is_prime", "strong_lucas"]},
-]
 
 # ----------------------------------------------------------------------------------------------
 # Independent oracles (Python big integers; none of this goes through the Lean model)
@@ -511,9 +502,10 @@ extern "C" void __ubsan_on_report(void) { g_ub = g_ub + 1; }
 #include <unistd.h>
 static volatile unsigned long long g_cur = 0;
 static const char* volatile g_what = "-";
+static char g_partial[160] = "-";      // results already obtained for the current request (no spaces)
 static void on_alarm(int) {
-    char buf[160];
-    int k = snprintf(buf, sizeof buf, "TIMEOUT what=%s current=%llu\n", g_what, (unsigned long long)g_cur);
+    char buf[400];
+    int k = snprintf(buf, sizeof buf, "TIMEOUT what=%s current=%llu partial=%s\n", g_what, (unsigned long long)g_cur, g_partial);
     if (write(1, buf, k) < 0) {}
     _exit(3);
 }
@@ -543,7 +535,7 @@ int main() {
     unsigned budget_s = budget ? (unsigned)atoi(budget) : 300u;
     while (fgets(line, sizeof line, stdin)) {
         alarm(budget_s);
-        g_what = "-"; g_cur = 0;
+        g_what = "-"; g_cur = 0; strcpy(g_partial, "-");
         char cmd[16] = {0}; char op[16] = {0}; ull a = 0, b = 0, c = 0, e = 0;
         if (sscanf(line, "%15s", cmd) != 1) { puts("bad"); continue; }
         if (!strcmp(cmd, "P") || !strcmp(cmd, "PQ")) {
@@ -556,10 +548,11 @@ int main() {
             const char* lucas = "skipped"; long wl = 0;
             if (n != UINT64_MAX) { u0 = g_ub; lucas = prn(d::strong_lucas(n)); wl = g_ub - u0; }
             bool ip = d::is_prime(n);
+            snprintf(g_partial, sizeof g_partial, "is_prime:%d,is_perfect_square:%d,mr2:%s,lucas:%s,then_find_prime_factor_hangs", (int)ip,
+                     (int)sq, prn(mr), lucas);
             uint64_t f = (n > 1 && !cmd[1]) ? d::find_prime_factor(n) : 0;
-            bool reached = n >= 2 && n % 2 == 1 && n != UINT64_MAX;
-            printf("prime=%d sq=%d mr2=%s lucas=%s factor=%llu wmr=%ld wlucas_excess=%ld\n", (int)ip, (int)sq, prn(mr), lucas,
-                   (ull)f, wmr, reached ? wl - wsq : wl);
+            printf("prime=%d sq=%d mr2=%s lucas=%s factor=%llu wmr=%ld wlucas=%ld wsq=%ld\n", (int)ip, (int)sq, prn(mr), lucas,
+                   (ull)f, wmr, wl, wsq);
         } else if (!strcmp(cmd, "A")) {
             if (sscanf(line, "%*s %15s %llu %llu %llu", op, &a, &b, &c) != 4) { puts("bad"); continue; }
             long u0 = g_ub; uint64_t r = 0;
@@ -748,12 +741,15 @@ def build_harness(wd, compiler, std, tag, wrapcount=False):
 
 
 def check_stderr(errs, cfg, wrapcount, phase, violations):
-    """UBSan reports other than the (legitimate, see is_perfect_square) unsigned wrap-arounds are undefined behaviour."""
+    """UBSan reports are undefined behaviour — or, for `unsigned integer overflow`, a wrap-around; those inside the
+    library headers are reported too (the harness's own code is excluded by file name)."""
     if wrapcount:
         return
-    bad = [l for e in errs for l in e.split("\n") if "runtime error" in l and "unsigned integer overflow" not in l]
+    bad = [l for e in errs for l in e.split("\n") if "runtime error" in l and
+           ("unsigned integer overflow" not in l or "/au/" in l.split(": runtime error")[0])]
     if bad:
-        violations.append({"what": f"undefined behaviour reported by UBSan during {phase}: {bad[0][:300]}", "class": "oracle-ub",
+        violations.append({"what": f"UBSan report (undefined behaviour, or unsigned wrap-around inside a library header) during {phase}: "
+                                   f"{bad[0][:300]}", "class": "oracle-ub",
                            "rec": {"kind": "ub", "config": cfg, "phase": phase, "reports": bad[:10]}})
 
 
@@ -787,7 +783,7 @@ def run_sharded(exe, lines, shards=16, heavy=lambda l: False, budget=300):
         if res and res[-1].startswith("TIMEOUT"):
             r = kv(res[-1])
             fail = {"what": f"request `{lines[idx[len(res) - 1]]}` did not finish within {budget} s (working on {r.get('what')} "
-                            f"input {r.get('current')})", "request": lines[idx[len(res) - 1]], "current": r.get("current"),
+                            f"input {r.get('current')}; results so far: {r.get('partial')})", "request": lines[idx[len(res) - 1]], "current": r.get("current"),
                     "phase": r.get("what")}
             res = res[:-1]
         elif len(res) != len(idx):
@@ -813,13 +809,13 @@ def ask_model(lines, shards=16):
     """The Lean driver, sharded over processes (Pollard rho on Nat is slow)."""
     if not lines:
         return []
-    Driver()
+    drv = Driver()          # private copy of the binary (a concurrent lake build relinks the shared one)
     buckets = [list(range(k, len(lines), shards)) for k in range(shards)]
 
     def work(idx):
         if not idx:
             return []
-        rc, out, err = run([vlib.DRIVER], inp="\n".join(lines[i] for i in idx) + "\n", timeout=7200)
+        rc, out, err = run([drv.exe], inp="\n".join(lines[i] for i in idx) + "\n", timeout=7200)
         res = out.split("\n")
         if res and res[-1] == "":
             res.pop()
@@ -857,7 +853,7 @@ def judge_P(n, cls, impl, model, cfg, wrapdet, violations, stats):
     if (r["prime"] == "1") != truth:
         violations.append({"what": f"is_prime({n}) = {r['prime']} but n is {'prime' if truth else 'composite'}",
                            "class": f"oracle-isprime-{n}", "rec": dict(base, observable="is_prime", want=int(truth))})
-    if n > 1 and cls != "is_perfect_square_false_positives":
+    if n > 1:
         f = int(r["factor"])
         if not (1 < f <= n and n % f == 0 and is_prime_det(f)):
             violations.append({"what": f"find_prime_factor({n}) = {f} is not a prime divisor", "class": f"oracle-factor-{n}",
@@ -891,14 +887,15 @@ def judge_P(n, cls, impl, model, cfg, wrapdet, violations, stats):
                                "class": f"oracle-lucas-{n}", "no_input": (r["prime"] == "1") == truth,
                                "broken": "relation: strong_lucas = strong Lucas probable prime (Selfridge)",
                                "rec": dict(base, observable="strong_lucas", want=wl)})
-    if wrapdet and (r.get("wmr", "0") != "0" or r.get("wlucas_excess", "0") != "0"):
-        violations.append({"what": f"unsigned wrap-around inside miller_rabin / strong_lucas (outside is_perfect_square) at n={n}",
+    if wrapdet and (r.get("wmr", "0") != "0" or r.get("wlucas", "0") != "0" or r.get("wsq", "0") != "0"):
+        violations.append({"what": f"unsigned wrap-around inside miller_rabin / strong_lucas / is_perfect_square at n={n}",
                            "class": "oracle-wrap-P", "rec": dict(base, observable="wrap")})
     if (r["sq"] == "1") != isqrt_exact(n):
         stats["is_perfect_square_wrong"] += 1
-        stats.setdefault("is_perfect_square_wrong_examples", [])
-        if len(stats["is_perfect_square_wrong_examples"]) < 5 and n not in stats["is_perfect_square_wrong_examples"]:
-            stats["is_perfect_square_wrong_examples"].append(n)
+        violations.append({"what": f"is_perfect_square({n}) = {r['sq']} but n is {'a' if isqrt_exact(n) else 'not a'} perfect square",
+                           "class": f"oracle-sq-{n}", "no_input": (r["prime"] == "1") == truth,
+                           "broken": "relation: is_perfect_square = exact square test (C12_isPerfectSquare_spec)",
+                           "rec": dict(base, observable="is_perfect_square")})
 
 
 def judge_A(case, impl, model, cfg, has_wrap_detect, violations, stats):
@@ -1068,9 +1065,9 @@ def explore(tier, seed, rng, wd, violations):
                 violations.append({"what": f"find_prime_factor({n}) = {r['fgot']} is not a prime divisor ({r['factor_bad']} in this segment)",
                                    "class": f"oracle-factor-{n}", "rec": {"kind": "P", "n": n, "config": cfg,
                                                                          "observable": "find_prime_factor", "segment": l}})
-            if wc and int(r["ub"]) and lo + seg <= (1 << 34):
+            if wc and int(r["ub"]):
                 violations.append({"what": f"unsigned wrap-around inside is_prime / find_prime_factor for some n in {l} "
-                                           f"({r['ub']} wrapping operation(s); below 2^34 nothing in these functions may wrap)",
+                                           f"({r['ub']} wrapping operation(s); nothing in these functions may wrap)",
                                    "class": "oracle-wrap-sweep", "rec": {"kind": "sweep", "segment": l, "config": cfg}})
     stats["t_sweep"] = round(time.time() - t0, 1)
     stats["sweep"] = dict(sweep_total, is_prime_below=plimit, find_prime_factor_below=flimit, windows_above=len(sweep_lines) - plimit // seg)
@@ -1138,7 +1135,7 @@ def explore(tier, seed, rng, wd, violations):
         pl2.append((n, cls))
     plist = pl2
     def pcmd(cls):
-        return "PQ" if cls == "is_perfect_square_false_positives" else "P"
+        return "P"
     p_lines = [f"{pcmd(cls)} {n}" for n, cls in plist]
     model_P = ask_model([f"c12 {pcmd(cls)} {n}" for n, cls in plist])
 
@@ -1146,7 +1143,8 @@ def explore(tier, seed, rng, wd, violations):
     a_lines = [f"A {op} {a} {b} {n}" for (op, a, b, n, _) in acases]
     model_A = ask_model([f"c12 {op} {a} {b} {n}" if op != "halfmod" else f"c12 halfmod {a} {n}" for (op, a, b, n, _) in acases])
     # never execute in C++ what the model says is a division by zero (it would trap)
-    keepA = [i for i, m in enumerate(model_A) if kv(m).get("divz") == "0" or acases[i][4]]
+    keepA_all = [i for i, m in enumerate(model_A) if kv(m).get("divz") == "0" or acases[i][4]]
+    keepA = keepA_all
 
     # small functions: gcd, decompose, jacobi, miller_rabin with other bases
     misc = []
@@ -1163,14 +1161,14 @@ def explore(tier, seed, rng, wd, violations):
         aa = rng.choice([rng.randrange(-(1 << 31), 1 << 31), rng.randrange(-20, 20), rng.choice([5, -7, 9, -11, 13, -15, 17]),
                          rng.randrange(-(1 << 63) + 1, 1 << 63)])
         misc.append(("J", aa, nn))
-        base = rng.choice([2, 3, 5, 7, 11, 13, 0, 1, rng.randrange(2, 1 << 16), rng.randrange(2, M64)])
+        base = rng.choice([2, 3, 5, 7, 11, 13, 0, 1, rng.randrange(2, 1 << 16), rng.randrange(2, M64 - 2)])
         nm = rng.choice([nn, next_prime(nn), rng.choice(adv["known_spsp"]), rng.choice(adv["carmichael_small"]), nn + 1, base + 1, base + 2,
                          base + 3])
         if nm < M64:
             misc.append(("R", base, nm))
     misc += [("G", 0, 0), ("G", 0, 5), ("G", 5, 0), ("G", MAXU, MAXU - 1), ("D", 1 << 63, 0), ("D", MAXU, 0), ("D", 1, 0),
              ("J", 0, 1), ("J", 5, 1), ("J", 0, 3), ("J", -1, 3), ("J", -1, 5), ("J", 2, 15), ("R", 2, 3), ("R", 2, 4), ("R", 2, 5),
-             ("R", MAXU, 3), ("R", MAXU - 1, MAXU), ("R", MAXU - 2, MAXU), ("R", 2, 2047), ("R", 3, 2047), ("R", 2, MAXU)]
+             ("R", MAXU - 3, MAXU), ("R", 2, 2047), ("R", 3, 2047), ("R", 2, MAXU)]
     for n in range(1, 200, 2):
         for a in (-7, -3, -1, 2, 3, 5, 9, -11, 13):
             misc.append(("J", a, n))
@@ -1182,6 +1180,8 @@ def explore(tier, seed, rng, wd, violations):
 
     distinct = set()
     for (exe, cfg, wrapdet) in exes:
+        # requests outside the documented preconditions wrap legitimately: only the wrap-count build runs them
+        keepA = keepA_all if wrapdet else [i for i in keepA_all if acases[i][4]]
         lines = p_lines + [a_lines[i] for i in keepA] + m_lines
         try:
             ans, errs = run_sharded(exe, lines, heavy=lambda l: l[0] == "P", budget=budget)
@@ -1334,11 +1334,6 @@ def main(tier, seed):
     proof = prove(PROP)
     rng = rng_for(PROP, seed)
     cov, _ = explore(tier, seed, rng, wd, violations)
-    pending = [v for v in violations if any(vlib._match_one(p, v.get("rec", {})) for p in PENDING_FINDINGS)]
-    violations = [v for v in violations if v not in pending]
-    cov["pending_findings"] = sorted({v["what"] for v in pending})
-    for w in cov["pending_findings"]:
-        print(f"PENDING-FINDING: property={PROP} {w}")
     return finish(PROP, tier, seed, t0, proof, cov, violations, ASSUME)
 
 
@@ -1360,7 +1355,7 @@ def replay(path):
         if kind == "P":
             n = int(r["n"])
             try:
-                pq = "PQ" if r.get("class") == "is_perfect_square_false_positives" else "P"
+                pq = "P"
                 a, _ = run_sharded(exe, [f"{pq} {n}"], shards=1, budget=60)
             except HarnessFailure as ex:
                 print("impl  :", ex.info.get("what"))
